@@ -12,7 +12,8 @@ from concurrent.futures import ProcessPoolExecutor, as_completed
 import multiprocessing as mp
 
 ROOT = os.path.dirname(os.path.dirname(os.path.abspath(__file__)))
-EVID = os.path.join(ROOT, "evidence")
+EVID = os.environ.get("VERIF_EVIDENCE_DIR") or os.path.join(ROOT, "evidence")      # override: development runs against scratch worktrees
+REPO = os.environ.get("VERIF_REPO", "/repo")
 REPLAYS = os.path.join(ROOT, "work", "replays")
 KNOWN = os.path.join(ROOT, "known_findings.json")
 
